@@ -397,8 +397,11 @@ def execute(case):
                             proc.play()
                             resumed += 1
                         if proc.state.value == 'waiting':
-                            proc.resume('rv')
-                            resumed += 1
+                            try:
+                                proc.resume('rv')
+                                resumed += 1
+                            except Exception as exc:  # noqa: BLE001
+                                v('resume-raised', f'pid {proc.pid}: resume() of a waiting process raised {type(exc).__name__}: {exc}')
                 if not opened and not resumed and not ctl:
                     break
         outside.append(Process.current())
